@@ -1,8 +1,9 @@
 /-
 C04 — small-step model of `UnboundedPriorityMailBox` (actor/unbounded_priority_mailbox.go):
-a `container/heap` under an RWMutex plus an atomic length counter.  The critical section
-(`Lock; hp.Push/hp.Pop; Unlock`) contains no other synchronisation, so under the cooperative lock it
-is one model step labelled `Lock:lock` (never observed blocked: no thread parks inside it).
+a `container/heap` under an RWMutex plus an atomic length counter that is updated INSIDE the critical
+section (`Lock; hp.Push/hp.Pop; AddInt64(&length, ±1); Unlock`).  A thread therefore parks at
+`Add:length` while holding the lock; another thread's `Lock:lock` step is then blocked (a no-op the
+harness reports as `Lock:lock!blocked`).
 -/
 import GoaktVerif.Model.C04.Core
 import GoaktVerif.Model.C04.Heap
@@ -13,13 +14,14 @@ open GoaktVerif.Model.C04
 structure Sh where
   heap : List Nat
   length : Int
+  locked : Bool       -- q.lock is held (by the thread parked at `Add:length`)
 
 inductive PC where
-  | enq1 (v : Nat)      -- Enqueue: `Lock:lock` [hp.Push; Unlock]
-  | enq2                --          `Add:length` (+1)
+  | enq1 (v : Nat)      -- Enqueue: `Lock:lock` [hp.Push]
+  | enq2                --          `Add:length` (+1) [Unlock]
   | deq1                -- Dequeue: IsEmpty → Len: `Load:length`
-  | deq2                --          `Lock:lock` [hp.Pop; Unlock]
-  | deq3 (v : Nat)      --          `Add:length` (-1)
+  | deq2                --          `Lock:lock` [hp.Pop]
+  | deq3 (v : Nat)      --          `Add:length` (-1) [Unlock]
   | len1                -- Len: `Load:length`
   | emp1                -- IsEmpty → Len: `Load:length`
   deriving Repr, DecidableEq
@@ -36,19 +38,28 @@ def label : PC → String
   | .len1 => "Load:length" | .emp1 => "Load:length"
 
 def exec (lt : Nat → Nat → Bool) (s : Sh) : PC → Sh × Next PC
-  | .enq1 v => ({ s with heap := Heap.push lt s.heap v }, .goto .enq2)
-  | .enq2 => ({ s with length := s.length + 1 }, .ret .ok)
+  | .enq1 v =>
+    if s.locked then (s, .goto (.enq1 v))
+    else ({ s with heap := Heap.push lt s.heap v, locked := true }, .goto .enq2)
+  | .enq2 => ({ s with length := s.length + 1, locked := false }, .ret .ok)
   | .deq1 => if s.length = 0 then (s, .ret .none) else (s, .goto .deq2)
   | .deq2 =>
-    match Heap.pop lt s.heap with
-    | some (x, rest) => ({ s with heap := rest }, .goto (.deq3 x))
-    | none => (s, .ret .none)   -- Go would panic here (hp.Pop on an empty heap); unreachable with one consumer
-  | .deq3 v => ({ s with length := s.length - 1 }, .ret (.val v))
+    if s.locked then (s, .goto .deq2)
+    else
+      match Heap.pop lt s.heap with
+      | some (x, rest) => ({ s with heap := rest, locked := true }, .goto (.deq3 x))
+      | none => (s, .ret .none)   -- Go would panic here (hp.Pop on an empty heap); unreachable with one consumer
+  | .deq3 v => ({ s with length := s.length - 1, locked := false }, .ret (.val v))
   | .len1 => (s, .ret (.num s.length))
   | .emp1 => (s, .ret (.bool (s.length == 0)))
 
-def init : Sh := { heap := [], length := 0 }
+def blocked (s : Sh) : PC → Bool
+  | .enq1 _ => s.locked
+  | .deq2 => s.locked
+  | _ => false
 
-def algo (lt : Nat → Nat → Bool) : Algo := { Sh, PC, start, label, exec := exec lt }
+def init : Sh := { heap := [], length := 0, locked := false }
+
+def algo (lt : Nat → Nat → Bool) : Algo := { Sh, PC, start, label, exec := exec lt, blocked }
 
 end GoaktVerif.Model.C04.Locked
